@@ -156,3 +156,5 @@ var vhRegistry = map[string]func(){
 }
 
 var vhIntVars = map[string]*int{"vhMaxSteps": &vhMaxSteps, "vhNExec": &vhNExec}
+
+var vhScenarios = map[string]func(map[string]string) bool{}
